@@ -307,7 +307,7 @@ impl<A: Ar> Exec<A> {
         // a check still sees the violations of *its* property that follow.
         let fatal = match (prop, class) {
             ("C03", _) | ("C08", _) | ("C10", _) | ("C16", _) | ("C20", _) => false,
-            ("C13", "release_cursor") | ("C13", "release_effect") | ("C13", "refs") | ("C13", "value_drop") | ("C13", "detached_released") | ("C13", "clone_side_effect") => false,
+            ("C13", "release_cursor") | ("C13", "release_effect") | ("C13", "release_amount") | ("C13", "refs") | ("C13", "value_drop") | ("C13", "detached_released") | ("C13", "clone_side_effect") => false,
             ("C04", "error_kind") | ("C04", "error_not_clean") | ("C04", "readonly_alloc") => false,
             ("C18", "capacity") | ("C18", "refused_fitting") => false,
             ("C05", "header_changed") | ("C05", "meta_changed") | ("C05", "freelist_changed") | ("C05", "reserved_changed") | ("C05", "bytes_changed") => false,
@@ -568,6 +568,10 @@ impl<A: Ar> Exec<A> {
         if post.discarded < pre.discarded {
             self.v("C20", "decreased", format!("{}: discarded {} -> {}", what, pre.discarded, post.discarded));
         } else if exact && delta != disc {
+            if delta > disc {
+                // more than the handle's own extent was given up (e.g. the same extent accounted twice)
+                self.v("C13", "release_amount", format!("{} of extent [{},{}) ({} bytes): discarded() rose by {} - the handle released more than its own extent, or released it more than once", what, boff, boff + bcap, bcap, delta));
+            }
             self.v("C20", "release_accounting", format!("{} of extent [{},{}) (freelist kind {}, min_seg {}): discarded rose by {}, expected {}", what, boff, boff + bcap, self.cfg.freelist, pre.min_seg, delta, disc));
         }
         // node set
@@ -849,6 +853,10 @@ impl<A: Ar> Exec<A> {
                     self.v("C17", "clear_error", format!("clear() failed: {:?}", r));
                 }
                 let d0 = a.data_offset();
+                if d0 != self.data_offset {
+                    self.v("C16", "data_offset_changed", format!("data_offset() is {} after clear(), it was {}", d0, self.data_offset));
+                }
+                let d0 = self.data_offset;
                 if post.allocated as usize != d0 || !post.nodes.is_empty() || !post.complete || post.discarded != 0 || post.min_seg != pre.min_seg {
                     self.v("C17", "clear_state", format!("after clear(): {:?} (data_offset {}, min_seg before {})", post.to_json(), d0, pre.min_seg));
                 }
@@ -1302,6 +1310,7 @@ impl<A: Ar> Exec<A> {
         let pre = self.a().snap();
         let pre_cap = self.a().capacity();
         let pre_bytes = self.mem()[..pre.allocated as usize].to_vec();
+        let cow_file_before = if self.cow && !self.ro { self.path.as_ref().and_then(|p| std::fs::read(p).ok()) } else { None };
         let r = {
             let a = self.arenas[idx].as_mut().unwrap();
             a.truncate_(n as usize)
@@ -1327,8 +1336,19 @@ impl<A: Ar> Exec<A> {
         if a.capacity() != want {
             self.v("C18", "capacity", format!("truncate({}) with allocated {}: capacity() is {}, expected {}", n, pre.allocated, a.capacity(), want));
         }
+        if self.cow {
+            // a copy-on-write session must stay one: nothing of it reaches the file (its length may grow, as at open)
+            if let (Some(before), Some(p)) = (&cow_file_before, &self.path) {
+                let after = std::fs::read(p).unwrap_or_default();
+                let m = before.len().min(after.len());
+                if after.len() < before.len() || before[..m] != after[..m] {
+                    self.v("C18", "cow_file_changed", format!("[cow-session] truncate({}) of an arena opened with map_copy changed the file ({} -> {} bytes, first difference at {:?})", n, before.len(), after.len(), (0..m).find(|i| before[*i] != after[*i])));
+                }
+            }
+        }
+        let tag = if self.cow { "[cow-session] " } else { "" };
         if post != pre {
-            self.v("C18", "state_changed", format!("truncate({}) changed allocator state: {} -> {}", n, pre.to_json(), post.to_json()));
+            self.v("C18", "state_changed", format!("{}truncate({}) changed allocator state: {} -> {}", tag, n, pre.to_json(), post.to_json()));
         }
         if self.opts.check_reserved && a.reserved_slice() != &self.reserved_pat[..] {
             self.v("C16", "reserved_written", format!("truncate({}) changed the reserved prefix", n));
@@ -1337,7 +1357,7 @@ impl<A: Ar> Exec<A> {
         let m = (pre.allocated as usize).min(mem.len());
         if mem[..m] != pre_bytes[..m] {
             let i = (0..m).find(|i| mem[*i] != pre_bytes[*i]).unwrap();
-            self.v("C18", "bytes_changed", format!("truncate({}) changed byte {} below allocated ({})", n, i, pre.allocated));
+            self.v("C18", "bytes_changed", format!("{}truncate({}) changed byte {} below allocated ({})", tag, n, i, pre.allocated));
         }
         self.obs("ok".into(), None, None)
     }
@@ -1360,7 +1380,8 @@ impl<A: Ar> Exec<A> {
         // A file-backed arena can still be observed after its last arena value is gone: through a second,
         // read-only mapping of the same file (MAP_SHARED, coherent with the first). It is used to judge what the
         // owned handles that outlive every arena value release.
-        let observer: Option<A> = match (&path, self.remove_on_drop, self.ro) {
+        // (not in a copy-on-write session: its releases go to private pages that a second mapping never sees)
+        let observer: Option<A> = match (&path, self.remove_on_drop, self.ro || self.cow) {
             (Some(p), false, false) => {
                 hook::set_mode(Mode::Off);
                 let o = unsafe { self.cfg.options().with_capacity(self.a().capacity() as u32).with_read(true).map::<A, _>(p) }.ok();
